@@ -839,6 +839,15 @@ class Walker(object):
                     "PointerWithExposedProvenance", "Subtype"):
             if kind == "Transmute" and isinstance(v, T) and ty_bits(ty) == v.bits:
                 return v
+            if kind == "Transmute" and ty[0] in ("ptr", "ref"):
+                # NonNull<T> / Unique<T> -> *const T : unwrap single-field wrappers down to the pointer
+                for _ in range(4):
+                    if isinstance(v, SymObj):
+                        v = self.materialise(v, state)
+                    if isinstance(v, Agg) and len(v.fields) >= 1 and not isinstance(v.fields[0], T):
+                        v = v.fields[0]
+                    else:
+                        break
             if isinstance(v, (Ref, Opaque, FnVal)):
                 return v
             return Opaque("cast:%s" % kind)
@@ -1143,7 +1152,7 @@ class Walker(object):
             pass
 
     def loop_guard(self, st, fr):
-        key = (len(st.frames), fr.fn.path, fr.block)
+        key = (fr.fid, fr.block)
         c = st.visits.get(key, 0) + 1
         st.visits[key] = c
         return c
@@ -1347,6 +1356,9 @@ class Walker(object):
         if isinstance(r, Diverge):
             return self.finish(st, "panic", detail=("builtin", r.why, fr.fn.path, fr.fn.loc(t.get("span"))))
         if isinstance(r, ForkValues):
+            c = self.loop_guard(st, fr)
+            if c > self.loop_bound:
+                return self.finish(st, "cut", detail="loop bound at %s bb%d (%s)" % (fr.fn.path, fr.block, fr.fn.loc(t.get("span"))))
             self.stats["forks"] += 1
             for (cond, cval, val) in reversed(r.alts):
                 s2 = st.copy()
